@@ -189,15 +189,16 @@ type Peer struct {
 
 	Disk *Disk
 
-	mu      sync.Mutex
-	DB      orbitdb.OrbitDB
-	direct  *simDirect
-	Offline bool // Dag().Get never waits for remote blocks
-	gate    bool
-	gateFor func(cid.Cid) bool
-	parked  []*ParkedFetch
-	GetLog  []cid.Cid
-	Journal *Journal
+	mu       sync.Mutex
+	DB       orbitdb.OrbitDB
+	direct   *simDirect
+	Offline  bool // Dag().Get never waits for remote blocks
+	gate     bool
+	gateFor  func(cid.Cid) bool
+	gateHard bool
+	parked   []*ParkedFetch
+	GetLog   []cid.Cid
+	Journal  *Journal
 }
 
 func newNode(ctx context.Context, slot int) (*ipfsCore.IpfsNode, error) {
@@ -574,6 +575,14 @@ func (f *ParkedFetch) Fail(err error) {
 	})
 }
 
+// SetGateHard is SetGate(true) with reads that stay parked even when their context ends (until released).
+func (p *Peer) SetGateHard() {
+	p.mu.Lock()
+	p.gate = true
+	p.gateHard = true
+	p.mu.Unlock()
+}
+
 // SetGateFor is SetGate(true) for the blocks sel selects only: the others are fetched as usual.
 func (p *Peer) SetGateFor(sel func(cid.Cid) bool) {
 	p.mu.Lock()
@@ -587,6 +596,7 @@ func (p *Peer) SetGate(on bool) {
 	p.mu.Lock()
 	p.gate = on
 	p.gateFor = nil
+	p.gateHard = false
 	var rel []*ParkedFetch
 	if !on {
 		rel = p.parked
@@ -682,12 +692,19 @@ func (d *netDAG) Get(ctx context.Context, c cid.Cid) (ipld.Node, error) {
 	p.mu.Lock()
 	p.GetLog = append(p.GetLog, c)
 	var pf *ParkedFetch
+	hard := p.gateHard
 	if p.gate && (p.gateFor == nil || p.gateFor(c)) {
 		pf = &ParkedFetch{Cid: c, release: make(chan struct{})}
 		p.parked = append(p.parked, pf)
 	}
 	p.mu.Unlock()
-	if pf != nil {
+	if pf != nil && hard {
+		// a read that does not notice the end of its context until it completes (a slow local disk)
+		<-pf.release
+		if pf.fail != nil {
+			return nil, pf.fail
+		}
+	} else if pf != nil {
 		select {
 		case <-pf.release:
 			if pf.fail != nil {
